@@ -28,4 +28,26 @@ theorem C07_empty_local (lvl : K → Nat) (hc : HashCfg K V D) (tL tP : Tree K V
     diff (pageRanges hc tL) (pageRanges hc tP) = .ok [(a.1, z.1)] :=
   diff_trees_local_empty lvl hc tL tP hL hP he a z ha hz
 
+/-- The same for every pair of HISTORIES (any order, overwrites, intermediate hash requests), each
+followed by the hash request serialisation needs: the diff of the two real serialisations covers
+every entry of the peer's final map that the local final map lacks or holds with another digest. -/
+theorem C07_histories (lvl : K → Nat) (hlvl : ∀ k, lvl k < 255) (hc : HashCfg K V D)
+    (hnc : ∀ p q : Pg K V D, CollisionFree hc (p.allToks hc ++ q.allToks hc))
+    (opsL opsP : List (Op K V))
+    (hspan : ∀ x ∈ (finalContent opsL).map Prod.fst,
+      (∃ a ∈ (finalContent opsP).map Prod.fst, a ≤ x) ∧ (∃ b ∈ (finalContent opsP).map Prod.fst, x ≤ b))
+    (kv : K × V) (hkv : kv ∈ finalContent opsP) (hdiff : kv ∉ finalContent opsL) :
+    ∃ tL tP lL lP out, run lvl hc (opsL ++ [.hash]) = .ok tL ∧ run lvl hc (opsP ++ [.hash]) = .ok tP ∧
+      tL.serialise = .ok (some lL) ∧ tP.serialise = .ok (some lP) ∧
+      diff lL lP = .ok out ∧ Covered kv.1 out := by
+  obtain ⟨tL, rL, hL, cL⟩ := hashed_of_run lvl hlvl hc opsL
+  obtain ⟨tP, rP, hP, cP⟩ := hashed_of_run lvl hlvl hc opsP
+  have hsp : SpanCovers tL tP := by
+    intro x hx
+    simp only [Pg.keys, cL, cP] at hx ⊢
+    exact hspan x hx
+  obtain ⟨out, h1, h2⟩ := C07 lvl hc tL tP hL hP (hnc _ _) hsp kv (by rw [cP]; exact hkv) (by rw [cL]; exact hdiff)
+  exact ⟨tL, tP, _, _, out, rL, rP, serialise_eq_pageRanges lvl hc tL hL,
+    serialise_eq_pageRanges lvl hc tP hP, h1, h2⟩
+
 end Mst.Props
